@@ -1683,12 +1683,23 @@ pub fn compile_grouping_key(
         debug!("Encoding range of {:?} for {:?}", &encoding_range, &gk_plan);
         let (max_cardinality, offset) = match encoding_range {
             Some((min, max)) => {
+                // The width of the range and the offset may not fit into an i64 (values close to i64::MIN/MAX),
+                // in which case the range is of no use and the key is treated like one of unknown range.
                 if min <= 0 && gk_plan.is_nullable() {
-                    (max - min + 1, Some(-min + 1))
+                    match (
+                        max.checked_sub(min).and_then(|x| x.checked_add(1)),
+                        min.checked_neg().and_then(|x| x.checked_add(1)),
+                    ) {
+                        (Some(cardinality), Some(offset)) => (cardinality, Some(offset)),
+                        _ => (1 << 62, None),
+                    }
                 } else if gk_plan.is_nullable() {
                     (max, Some(0))
                 } else if min < 0 {
-                    (max - min, Some(-min))
+                    match (max.checked_sub(min), min.checked_neg()) {
+                        (Some(cardinality), Some(offset)) => (cardinality, Some(offset)),
+                        _ => (1 << 62, None),
+                    }
                 } else {
                     (max, None)
                 }
